@@ -15,7 +15,8 @@ Inductive op :=
 | OArgsToIPLD | OArgsString | OArgsIter | OArgsEquals | OArgsGetNode
 | OMetaString | OMetaIter | OMetaGet | OMetaEquals
 | OAccessors | OIsValid | OExecutionAllowed | OSeal | OEncodeJson | OPolicyString | OPolicyMatch
-| OExecutionAllowedHookAdds (extra : str).   (* the hook adds a key to its own writeable clone of the arguments *)
+| OExecutionAllowedHookAdds (extra : str)
+| OCloneAdds (extra : str).                  (* WriteableClone of the metadata / arguments, then Add on the clone *)   (* the hook adds a key to its own writeable clone of the arguments *)
 
 Fixpoint insert_sorted (k : str) (l : list str) : list str :=
   match l with [] => [k] | x :: r => if str_ltb k x then k :: l else x :: insert_sorted k r end.
@@ -40,6 +41,7 @@ Definition run_op (o : op) (s : tstate) : tstate * list event * oresult :=
   | OExecutionAllowedHookAdds extra =>
       (* the clone is private memory: no access to a shared location but reads; it holds the token's keys and the new one *)
       (s, [Rd LFields; Rd LPolicy; Rd LArgsKeys; Rd LArgsValues], RKeys (args_keys s ++ [extra]))
+  | OCloneAdds extra => (s, [Rd LMetaKeys; Rd LMetaValues; Rd LArgsKeys; Rd LArgsValues], RKeys (meta_keys s ++ [extra]))
   end.
 
 Definition is_write (e : event) : bool := match e with Wr _ => true | Rd _ => false end.
